@@ -298,10 +298,7 @@ func cmdEvents(args []string) int {
 			}
 			evs = optEvents(&ln, nl)
 		case *kind == "idem" && (ln.T == "p" || ln.T == "u"):
-			if ln.T == "p" && len(ln.Bs) > 0 {
-				continue
-			}
-			evs = idemEvents(ln.In, nameList, ln.T == "u")
+			evs = idemEvents(ln.In, ln.Bs, nameList, ln.T == "u")
 		case *kind == "class" && ln.T == "cls":
 			evs = classEvents(ln.Sp, ln.Std, nameList)
 		default:
@@ -463,6 +460,7 @@ type IdemEvent struct {
 	K    string        `json:"k"`
 	Prof string        `json:"prof"`
 	In   proj.Text     `json:"in"`
+	Bs   []proj.Text   `json:"bs"`  // base string handed to the profile's ParseRef (at most one; none = Parse)
 	Y    Res           `json:"y"`   // p(x)
 	Z    Res           `json:"z"`   // p(y.href)
 	YP   [][]proj.Text `json:"yp"`  // the parameter list stored in y (what the serializer was given)
@@ -470,14 +468,17 @@ type IdemEvent struct {
 	// experimental profiles only on inputs of the ordinary-web-URL grammar
 }
 
-func idemEvents(in proj.Text, profs []string, grammar bool) []interface{} {
+func idemEvents(in proj.Text, bs []proj.Text, profs []string, grammar bool) []interface{} {
 	var out []interface{}
 	s := in.ToGo()
+	if bs == nil {
+		bs = []proj.Text{}
+	}
 	for _, pn := range profs {
 		p := parserFor(pn)
-		e := IdemEvent{K: "idem", Prof: pn, In: in, Z: Res{VE: VEList{}}, YP: [][]proj.Text{}, Law: grammar || !(pn == "GoogleSafeBrowsing" || pn == "Semantic")}
+		e := IdemEvent{K: "idem", Prof: pn, In: in, Bs: bs, Z: Res{VE: VEList{}}, YP: [][]proj.Text{}, Law: grammar || !(pn == "GoogleSafeBrowsing" || pn == "Semantic")}
 		var yu *url.Url
-		e.Y, yu = parseU(p, s, nil)
+		e.Y, yu = parseU(p, s, bs)
 		if !e.Y.Fail {
 			e.Z, _ = parseU(p, e.Y.G.Href.ToGo(), nil)
 			func() {
